@@ -9,7 +9,7 @@ from hypothesis.stateful import RuleBasedStateMachine, invariant, rule
 
 from .. import lib
 from ..ref import rfc6901 as P
-from ..run import Stats, hyp_run, mix, run_machine
+from ..run import Stats, hyp_run, mix, run_machine, rng_for
 from ..strict import short
 
 from jsonpath import JSONPointer
@@ -205,7 +205,7 @@ def t_random(seed, n):
     def body(x):
         toks, s = x
         stats.case()
-        laws(stats, toks, random.Random(s), "random")
+        laws(stats, toks, rng_for(s), "random")
         if delicate(toks):
             stats.nt("r", repr(toks))
         if len(stats.samples) < 4:
